@@ -59,8 +59,9 @@ def readFragLoop (path : Bytes) (n cap : Nat) : Nat → LState → Nat → Bytes
       else if r.status = 0 then (st', .ok (ty, acc ++ vb))
       else (st', .error r.status)
 
-/-- segment size of _send_write_fragmented: connection size minus everything in the message but the value -/
-def writeSegSize (cap : Nat) (path ty : Bytes) : Nat := cap - (1 + path.length + ty.length + 2 + 4)
+/-- segment size of _send_write_fragmented: connection size minus everything in the message but the value
+    (`request.message` starts with the 2-byte sequence count) -/
+def writeSegSize (cap : Nat) (path ty : Bytes) : Nat := cap - (2 + 1 + path.length + ty.length + 2 + 4)
 
 /-- _send_write_fragmented: one request per segment, all are sent; the statuses in order -/
 def writeFragSend (path ty : Bytes) (n cap : Nat) : LState → List (Nat × Bytes) → LState × List Nat
